@@ -72,6 +72,13 @@ class CsvListAction(argparse.Action):
         setattr(namespace, self.dest, items)
 
 
+def positive_int(value: str) -> int:
+    number = int(value)
+    if number <= 0:
+        raise argparse.ArgumentTypeError(f"invalid positive int value: {value!r}")
+    return number
+
+
 def parse_args(argv, codemod_registry: CodemodRegistry):
     """
     Parse CLI arguments according to:
@@ -153,7 +160,7 @@ def parse_args(argv, codemod_registry: CodemodRegistry):
     )
     parser.add_argument(
         "--max-workers",
-        type=int,
+        type=positive_int,
         default=1,
         help="maximum number of workers (threads) to use for processing files in parallel",
     )
